@@ -289,8 +289,13 @@ def run_case(ctx, case):
                     ctx.event('pool_batches_compared')
                     a, b = np.asarray(pb[x]), np.asarray(fb[x])
                     if a.shape != b.shape or a.tobytes() != b.tobytes():
-                        raise Violation('pool-content', '%s: pool batch %d of node %s differs from a fresh computation' % (where, i, x),
-                                        {'pool': a, 'fresh': b})
+                        # under the known mechanism the simulator ran at another generator position in this step: what it produced
+                        # (and everything computed from it) is stored, so the same structural classifier applies to the pool content
+                        raise Violation(KNOWN_KEY if known else 'pool-content',
+                                        '%s: pool batch %d of node %s differs from a fresh computation' % (where, i, x), {'pool': a, 'fresh': b})
+            if known:
+                # the pool now holds values from the divergent run; later steps of this history would only repeat the finding
+                break
         # context refusal
         if pool.has_context:
             for kw in ({'batch_size': case['bs'] + 1, 'seed': case['seed']}, {'batch_size': case['bs'], 'seed': case['seed'] + 1}):
